@@ -117,6 +117,7 @@ func init() {
 			ruleBlockFilters(c, r, "")
 			ruleFilterWriterDict(c, r, "")
 			ruleEncoderDictArgs(c, r, "")
+			ruleDictCapRange(c, r, "")
 			// the reading side of the size byte: the filter properties are one raw byte each (size, code),
 			// codes above 40 are rejected (container check catalogue of the xz reader)
 			ruleXZReaderChecks(c, r, "rd:")
